@@ -21,19 +21,19 @@ pub fn is_special(c: char) -> bool {
     }
 }
 
-// parse.rs:922
+// parse.rs:924
 #[cfg_attr(kani, kani::ensures(|r: &bool| *r == (b'0' <= b && b <= b'9')))]
 pub fn is_digit(b: u8) -> bool {
     b'0' <= b && b <= b'9'
 }
 
-// parse.rs:926
+// parse.rs:928
 #[cfg_attr(kani, kani::ensures(|r: &bool| *r == ((b'0' <= b && b <= b'9') || (b'a' <= b && b <= b'f') || (b'A' <= b && b <= b'F'))))]
 pub fn is_hex_digit(b: u8) -> bool {
     is_digit(b) || (b'a' <= (b | 32) && (b | 32) <= b'f')
 }
 
-// parse.rs:918
+// parse.rs:920
 pub fn is_id_char(c: char) -> bool {
     c.is_alphanumeric() || c == '_'
 }
